@@ -742,7 +742,7 @@ const char* const kAssumptions[] = {
 const char* const kReal[] = {"asmjit x86::Assembler/Builder/Compiler (x86-32 and x86-64, strict validation on), a64::Assembler/Builder/Compiler, CodeHolder, InstAPI::validate, formatter and logger failure path (built from /repo)", nullptr};
 const char* const kStub[] = {"SimHeap junk fill / realloc policy, H4 code buffer capacity; the error handler (none / recording / throwing) is the injected 'fault'", nullptr};
 const sim::PropInfo kInfo = {"C14", "exploration",
-  "Each run is one seed: target (x86-32, x86-64, AArch64), emitter (Assembler, Builder, Compiler), error handler mode (none, recording, throwing), a generated valid program of 5..65 calls and, interleaved with it, invalid calls: on x86 arbitrary (instruction id incl. out of range, option bits, extra register, 0..6 operands of any register type/id, memory form, label incl. out-of-range ids, immediate) with strict validation on; on AArch64 valid forms with ids, immediates, offsets, index/shift/pre-post modifiers and label ids perturbed; on both bind/align/embed_label/embed_label_delta/section/named-label/embed_data_array calls with invalid arguments. "
+  "Each run is one seed: target (x86-32, x86-64, AArch64), emitter (Assembler, Builder, Compiler), error handler mode (none, recording, throwing), a generated valid program of 5..65 calls and, interleaved with it, invalid calls: on x86 arbitrary (instruction id incl. out of range, option bits, extra register, 0..6 operands of any register type/id, memory form, label incl. out-of-range ids, immediate) with strict validation on; on AArch64 one of the ~4000 instruction forms harvested from the repository's own assembler test (asmjit_test_assembler_a64.cpp compiled into the harness against a shadowed tester header, recorded through an a64::Builder) with the operand kinds kept and register ids, element types and indices, memory base/index ids, offsets, shifts, extends, offset modes, immediates, shift/extend predicates and label ids re-drawn - an independent table of architectural constraints (register id ranges, shift amounts, bit indices, bit fields, nzcv, 16-bit immediates, element indices) says which of these calls must fail; on both bind/align/embed_label/embed_label_delta/section/named-label/embed_data_array calls with invalid arguments. "
   "Scenario 'compiler-virt-regs' mixes instructions with arbitrary virtual register ids (beyond the registers created, of another register group, as memory base/index) into a valid x86-64 Compiler function: finalize() must report an error, and the same Compiler, reset, must then compile the valid function exactly like a fresh one. Oracles: no sanitizer report; a call that reports an error (return value or handler, including a throwing handler) leaves section bytes and sizes, label/bound/fixup/relocation/section/node counts unchanged and the one-shot state cleared; a call that references a label id beyond the label count must fail; at the end sections, labels and relocations (after finalize() for Builder/Compiler) equal those of a fresh emitter given only the calls that succeeded. Non-trivial = at least one call failed; distinct = distinct event-log hashes.",
   kAssumptions, kReal, kStub};
 sim::PropInfoRegistrar reginfo(kInfo);
